@@ -12,7 +12,8 @@ CLAIM = dict(
     text="view::matmul (slicing implementation) and view::matmulv2 (tile/reshape/transpose/multiply/sum pipeline), dot, inner, outer, vecdot (keepdims off/on), tensordot (run-time integer axes 0..min dim, the default, every explicit axis pairing incl. negative axes), kron and trace (run-time offset/axes) are executed on int32/float/double dynamic ndarrays whose integer-valued data come from the case file; quick: every NumPy-valid pair of operand shapes of dim 1..3 / extents 1..3 for matmul/dot/inner/vecdot/tensordot (all batch-broadcast patterns, 1-d promotion on either side, every contraction length), sampled pairs for outer/kron; thorough adds 100k sampled cases of dim<=4 / extents<=4. Shape and every element read through view(i...) are compared exactly with numpy.matmul/dot/inner/outer/vecdot/tensordot/kron/trace. Held-on-observed.",
     note="Trusted: NumPy as the reference; the harness' own odometer for element reads. Only NumPy-valid arguments (shape mismatches are C15's), only the fully dynamic ndarray kind (other kinds are C09's). A result NumPy returns as a 0-d scalar is accepted both as a number and as a 0-dim array.",
     ref="DESIGN.md 4/C16")
-HARNESS = ["c16_matmul", "c16_dot", "c16_outer", "c16_tensordot", "c16_kron"]
+HARNESS = ["c16_matmul", "c16_dot", "c16_outer", "c16_tensordot", "c16_kron", "c16_matmul_fd"]
+FD_DIMS = {(2, 2), (3, 2), (2, 3), (3, 3), (4, 3), (3, 4), (4, 2), (2, 4)}      # dimension pairs instantiated by harness/c16_matmul_fd.cpp
 TARGETS_QUICK = [(h, "asan") for h in HARNESS]
 
 NPDT = {"i": np.int32, "f": np.float32, "d": np.float64}
@@ -83,6 +84,20 @@ def gen_cases(rng, tier):
     for a, b in mm:
         add2("la_matmul", a, b)
         add2("la_matmulv2", a, b)
+    # ---- matmul on operands of compile-time dimension (fixed-dim shape array): every valid pair of dims in FD_DIMS incl. dim 4
+    #      (batch broadcasting of a lower-rank operand that has batch axes of extent 1 / > 1)
+    small4 = small + [s for s in all_shapes(4, 2, mindim=4)] + [[2, 1, 3, 2], [1, 2, 2, 3], [2, 2, 1, 2], [1, 1, 2, 2], [2, 1, 1, 3], [3, 1, 2, 1], [1, 3, 1, 2]]
+    fd = [(a, b) for a in small4 for b in small4 if (len(a), len(b)) in FD_DIMS and valid(np.matmul, a, b)]
+    def _bc(a, b):
+        # lower-rank operand keeps a batch axis, and extents 1 occur on batch axes (the broadcasting decisions)
+        return len(a) != len(b) and min(len(a), len(b)) >= 3 and (1 in a[:-2] or 1 in b[:-2])
+    hard = [p_ for p_ in fd if _bc(*p_)]
+    rest = [p_ for p_ in fd if not _bc(*p_)]
+    for a, b in hard + sub(rest, 300 if quick else 4000):
+        dt_save = None
+        da, db = mkdata(rng, size(a), "i"), mkdata(rng, size(b), "i")
+        for op in ("la_matmul_fd", "la_matmulv2_fd"):
+            cases.append(dict(op=op, args="i %s %s" % (fmt_operand(a, da), fmt_operand(b, db)), dtype="i", sa=list(a), sb=list(b), da=da, db=db))
     # ---- dot / inner
     dd = [(a, b) for a, b in pairs if valid(np.dot, a, b)]
     for a, b in (sub(dd, 350) if quick else dd):
@@ -243,7 +258,7 @@ def expected(m):
     if op in ("la_trace", "la_trace_default"):
         return np.asarray(np.trace(a, m["offset"], m["axis1"], m["axis2"]))
     b = np_operand(m["sb"], m["db"], dt)
-    if op in ("la_matmul", "la_matmulv2"):
+    if op in ("la_matmul", "la_matmulv2", "la_matmul_fd", "la_matmulv2_fd"):
         return np.asarray(np.matmul(a, b))
     if op == "la_dot":
         return np.asarray(np.dot(a, b))
@@ -270,7 +285,7 @@ def argclass(m):
     op = m["op"]
     sa = m["sa"]
     sb = m.get("sb")
-    if op in ("la_matmul", "la_matmulv2"):
+    if op in ("la_matmul", "la_matmulv2", "la_matmul_fd", "la_matmulv2_fd"):
         if len(sa) == 1 and len(sb) == 1:
             return "both1d"
         if len(sa) == 1:
